@@ -392,8 +392,8 @@ OP_BY_NAME = {o.name: o for o in OPS}
 assert len(OP_BY_NAME) == len(OPS), "duplicate op names"
 
 
-def op_configs(op):
-    """Specification tuples an operation is evaluated on (simplest first, bounded by nmax)."""
+def op_configs(op, factor=1):
+    """Specification tuples an operation is evaluated on (simplest first, bounded by factor * nmax)."""
     if op.configs is not None:
         return [tuple(c) for c in op.configs]
     pools = [POOL[k] for k in op.kinds]
@@ -401,9 +401,10 @@ def op_configs(op):
     for cfg in itertools.product(*pools):
         out.append(cfg)
     # spread over the pools rather than exhausting the last argument first
-    if len(out) > op.nmax:
-        step = len(out) / op.nmax
-        out = [out[int(i * step)] for i in range(op.nmax)]
+    nmax = op.nmax * factor
+    if len(out) > nmax:
+        step = len(out) / nmax
+        out = [out[int(i * step)] for i in range(nmax)]
     return out
 
 
